@@ -1,5 +1,10 @@
 import Cirbo.Proofs.EvalCor
 import Cirbo.Model.Checkers
+import Cirbo.Proofs.TseytinTemplates
+import Cirbo.Proofs.Convert
+import Cirbo.Proofs.GenSum
+import Cirbo.Proofs.Pattern
+import Cirbo.Generated.SynthTables
 /-!
 # C01 — Evaluation equals the denotational semantics of the gate network
 
@@ -10,7 +15,12 @@ import Cirbo.Model.Checkers
 -- OBLIGATION: c01_den_storage_order
 -- OBLIGATION: c01_evaluate_full_circuit
 -- OBLIGATION: c01_evaluate_circuit
--- PARTIAL: evaluate/evaluate_at/get_truth_table/get_gates_truth_table are modelled as the stated projections of the two evaluators (Model/Eval.lean) and validated by correspondence; their projection lemmas are not yet proved. evaluate_circuit: partial correctness (termination within fuel by correspondence). The other gate-interpreting modules (CNF templates, synthesis codes, pattern simulation, bench conversion) are tied to bfun in C05/C06/C04/C14's table theorems.
+-- OBLIGATION: c01_cnf_templates_denote_bfun
+-- OBLIGATION: c01_arithmetic_gate_codes_denote_bfun
+-- OBLIGATION: c01_synthesis_codes_denote_bfun
+-- OBLIGATION: c01_pattern_simulation_denotes_bfun
+-- OBLIGATION: c01_bench_conversion_denotes_bfun
+-- PARTIAL: evaluate/evaluate_at/get_truth_table/get_gates_truth_table are modelled as the stated projections of the two evaluators (Model/Eval.lean) and validated by correspondence; their projection lemmas are not yet proved. evaluate_circuit: partial correctness (termination within fuel by correspondence). The other gate-interpreting modules are tied to the same bfun by the five theorems below (CNF templates at every arity, the two regenerated truth-table code tables, pattern simulation bit by bit, every bench conversion step).
 -/
 namespace Cirbo
 open GateType V3
@@ -115,6 +125,37 @@ example : IsValB exTiny01 (fun _ => true) (fun l => l == "a") := by
 example : (evalFull exTiny01 (asgOfBools exTiny01 (fun _ => true))).toOption
     = some [("a", T), ("n", F)] := by decide
 
+/-! ### every other part of the library that interprets a gate type denotes the same `bfun` -/
+
+/-- CNF templates (Tseytin), every type at every accepted arity -/
+theorem c01_cnf_templates_denote_bfun (ty : GateType) (top : Int) (lits : List Int) (ht : top ≠ 0)
+    (h : ∀ l ∈ lits, l ≠ 0) (hty : ty ≠ GateType.INPUT) (har : arityOk ty lits.length = true) :
+    ∃ cls, tsTemplate ty top lits = some cls ∧
+      ∀ σ, cnfSat σ cls = true ↔ bfun ty (lits.map (litVal σ)) = some (litVal σ top) :=
+  tsTemplate_exact ty top lits ht h hty har
+
+/-- arithmetic generators' `binary_tt_to_type` (regenerated table) -/
+theorem c01_arithmetic_gate_codes_denote_bfun {a b c d : Bool} {ty : GateType} (h : Gen.ttType a b c d = some ty) (x y : Bool) :
+    bfun ty [x, y] = some (ttApply (a, b, c, d) x y) := ttType_sem h x y
+
+/-- exact synthesis' `_tt_to_gate_type` (regenerated table) -/
+theorem c01_synthesis_codes_denote_bfun {a b c d : Bool} {ty : GateType} (h : Gen.synthTtType a b c d = some ty) (x y : Bool) :
+    bfun ty [x, y] = some (ttApply (a, b, c, d) x y) := by
+  cases a <;> cases b <;> cases c <;> cases d <;> simp only [Gen.synthTtType, Option.some.injEq] at h <;>
+    subst h <;> cases x <;> cases y <;> rfl
+
+/-- subcircuit pattern simulation, bit by bit -/
+theorem c01_pattern_simulation_denotes_bfun (k : Nat) (ty : GateType) (ops : List Nat) (p : Nat)
+    (h : Pattern.evalPattern k ty ops = .ok p) (hops : ∀ x ∈ ops, x < 2 ^ (2 ^ k)) (har : arityOk ty ops.length = true) :
+    p < 2 ^ (2 ^ k) ∧ ∀ i, i < 2 ^ k → bfun ty (Pattern.bitsAt ops i) = some (p.testBit i) :=
+  Pattern.evalPattern_sound k ty ops p h hops har
+
+/-- bench conversion: converting any gate (incl. comparison gates reading the same gate twice)
+keeps the value of every gate -/
+theorem c01_bench_conversion_denotes_bfun {c c1 : Circuit} (hnl : NL c) {g : Gate} (hg : g ∈ c.gates) {k k1 : Nat}
+    {b v : Label → Bool} (hv : ValG c.gates b v) (h : c.convertGate g k = .ok (c1, k1)) :
+    ∃ v1, ConvRes c c1 g b v v1 := convertGate_sem hnl hg hv h
+
 #print axioms c01_ops_every_arity
 #print axioms c01_generated_rows_are_the_model
 #print axioms c01_den_exists
@@ -122,5 +163,10 @@ example : (evalFull exTiny01 (asgOfBools exTiny01 (fun _ => true))).toOption
 #print axioms c01_den_storage_order
 #print axioms c01_evaluate_full_circuit
 #print axioms c01_evaluate_circuit
+#print axioms c01_cnf_templates_denote_bfun
+#print axioms c01_arithmetic_gate_codes_denote_bfun
+#print axioms c01_synthesis_codes_denote_bfun
+#print axioms c01_pattern_simulation_denotes_bfun
+#print axioms c01_bench_conversion_denotes_bfun
 
 end Cirbo
